@@ -762,3 +762,80 @@ func init() {
 		emit(strings.Repeat("[", 4096) + "[]" + strings.Repeat("]", 4096))
 	})
 }
+
+// c14.wideviews: views / conversions of WIDE containers.  The documents are built by repetition from
+// (container kind, child kind, n) inside the `c14wide` op; n straddles the internal thresholds.
+// g.N carries the constants re-read from the source by factx: MAX_RECURSE*100 + _DEFAULT_NODE_CAP
+// (= _Threshold_Index; 4096 and 16 when not given).
+func init() {
+	registerGen("c14.wideviews", func(g *Gen) {
+		maxRec, capN := 4096, 16
+		if g.N >= 10000 {
+			maxRec, capN = g.N/100, g.N%100
+		}
+		rows := "k:" + hexArg([]byte("rows"))
+		emit := func(mask, ck, child string, n int, path string) {
+			g.Emit("c14wide", mask, ck, child, itoa(n), path)
+		}
+		seen := map[int]bool{}
+		var small []int
+		addSize := func(n int) {
+			if n < 0 || n > 600 || seen[n] {
+				return
+			}
+			seen[n] = true
+			small = append(small, n)
+		}
+		// chunk sizes / index threshold and their multiples, small powers of two
+		for _, m := range []int{1, 2, 3, 4, 16} {
+			for d := -1; d <= 1; d++ {
+				addSize(capN*m + d)
+			}
+		}
+		for k := 0; k <= 9; k++ {
+			for d := -1; d <= 1; d++ {
+				addSize((1 << uint(k)) + d)
+			}
+		}
+		for _, ck := range []string{"a", "o"} {
+			for _, n := range small {
+				for _, child := range []string{"s", "e", "c", "m"} {
+					emit("21", ck, child, n, rows)
+				}
+				emit("21", ck, "c", n, "-")
+				if n > 0 {
+					last := rows + "/i:" + itoa(n-1)
+					if ck == "o" {
+						last = rows + "/k:" + hexArg([]byte("k"+itoa(n-1)))
+					}
+					emit("21", ck, "m", n, last)
+				}
+			}
+		}
+		// large: around the recursion bound (children counted as levels would cross it here), 2^k+1
+		top := 13
+		if g.Tier == "thorough" {
+			top = 16
+		}
+		arrSizes := []int{1025, 2049, maxRec - 7, maxRec - 1, maxRec, maxRec + 1, maxRec + 4, maxRec + maxRec/4}
+		for k := 13; k <= top; k++ {
+			arrSizes = append(arrSizes, (1<<uint(k))+1)
+		}
+		for _, n := range arrSizes {
+			emit("21", "a", "c", n, rows) // non-empty container children at every large size
+			if n == maxRec+1 || n == (1<<uint(top))+1 {
+				emit("21", "a", "s", n, rows)
+				emit("21", "a", "e", n, rows)
+				emit("21", "a", "m", n, rows)
+			}
+		}
+		emit("21", "a", "c", maxRec+1, "-") // the whole document: root.Map() / Interface() of everything
+		emit("21", "a", "m", maxRec+maxRec/4, rows+"/i:"+itoa(maxRec+maxRec/4-1))
+		for _, n := range []int{maxRec - 1, maxRec + 1, maxRec + maxRec/4} {
+			emit("21", "o", "c", n, rows)
+		}
+		emit("21", "o", "m", maxRec+1, rows)
+		emit("21", "o", "e", maxRec+1, rows)
+		emit("21", "o", "c", maxRec+1, "-")
+	})
+}
